@@ -19,5 +19,6 @@ Definition run (c : sx) : sx :=
   | L [A 16; arg] => run_layer_histories arg
   | L [A 17; arg] => run_plot_labels arg
   | L [A 18; arg] => run_draw_kwargs arg
+  | L [A 20; arg] => run_scan arg
   | _ => sx_err
   end.
